@@ -75,6 +75,22 @@ def overlap_layout(params):
     return {"violated": bool(bad), "problems": bad[:2]}
 
 
+def overlap_frame(params):
+    """_calc_overlapping_labels must not write to its inputs (all dtypes, incl. the one it uses internally)"""
+    from panoptica._functionals import _calc_overlapping_labels
+    bad = []
+    for dtype in ("uint8", "uint16", "uint32", "uint64"):
+        pred = np.array([1, 1, 2, 0, 3, 3], dtype)
+        ref = np.array([1, 0, 2, 2, 0, 0], dtype)
+        p0, r0 = pred.copy(), ref.copy()
+        got = sorted(_calc_overlapping_labels(pred, ref, tuple(np.unique(ref[ref != 0]))))
+        if not (np.array_equal(pred, p0) and np.array_equal(ref, r0)):
+            bad.append({"dtype": dtype, "pred_after": pred.tolist(), "pred_before": p0.tolist(), "ref_after": ref.tolist()})
+        if got != spec_pairs(p0, r0):
+            bad.append({"dtype": dtype, "got": str(got), "want": str(spec_pairs(p0, r0))})
+    return {"violated": bool(bad), "problems": bad[:3]}
+
+
 def crop(params):
     from panoptica._functionals import _get_paired_crop
     dtype = params["dtype"]
@@ -114,7 +130,25 @@ def maplabels(params):
                 bad.append({"arr": arr.tolist(), "map": m, "got": [int(x) for x in out], "want": want})
         except Exception as e:
             bad.append({"arr": arr.tolist(), "map": m, "got": f"raised {type(e).__name__}: {e}"[:100]})
-    return {"violated": bool(bad), "problems": bad[:3], "witness_class": WC_MAP if bad else None}
+    # crossed / chained maps (the relabelling is simultaneous, not sequential) and the width of the result
+    small = min(hi, 300)
+    for m in ({1: 2, 2: 1}, {1: 2, 2: 3}, {2: 1, 1: 2, 3: 1}, {1: 3}, {small: 1}):
+        arr = np.array([0, 1, 2, 3, small, 1, 2], dtype=dtype)
+        a0 = arr.copy()
+        try:
+            out = _map_labels(arr, m)
+        except Exception as e:
+            bad.append({"arr": arr.tolist(), "map": m, "got": f"raised {type(e).__name__}: {e}"[:100]})
+            continue
+        want = [m.get(int(x), int(x)) for x in a0]
+        if [int(x) for x in out] != want:
+            bad.append({"arr": a0.tolist(), "map": m, "got": [int(x) for x in out], "want": want})
+        if not np.array_equal(arr, a0):
+            bad.append({"arr": a0.tolist(), "map": m, "problem": "input array written"})
+        if not np.can_cast(arr.dtype, out.dtype, "safe"):
+            bad.append({"arr": a0.tolist(), "map": m, "problem": f"result dtype {out.dtype} is narrower than the input dtype {arr.dtype}"})
+    wc = WC_MAP if bad and any("got" in b and isinstance(b.get("got"), list) and any(v > hi for v in b.get("want", [])) for b in bad) else None
+    return {"violated": bool(bad), "problems": bad[:3], "witness_class": wc}
 
 
 def _evaluate(pred, ref, input_type, matcher="naive"):
